@@ -271,6 +271,64 @@ pub fn call(
                     Err(_) => shadow_panic = Some(pm),
                 }
             }
+            // (e) history of the Params OBJECT: an object that has already been used for a call and is then changed in
+            // place through its public fields must behave like a freshly built object with the same field values
+            // (derived state cached inside the object must not survive the change). `q` is used as the original
+            // parameter set first, then turned into the neighbour's parameter set field by field; the fresh twin is
+            // rebuilt from q's serialised form.
+            if kind >= 8 {
+                st.count("history_probe.params_object_reused_after_in_place_change");
+                let mut q = p.clone();
+                let first = catch_unwind(AssertUnwindSafe(|| prayer_times_dt(&q, l, d, w)));
+                q.asr_shadow_ratio = p2.asr_shadow_ratio;
+                q.round_seconds = p2.round_seconds;
+                q.extreme_latitude_method = p2.extreme_latitude_method;
+                for (k, v) in p2.angles.iter() {
+                    if let Some(x) = q.angles.get_mut(k) {
+                        *x = *v;
+                    }
+                }
+                for (k, v) in p2.intervals.iter() {
+                    if let Some(x) = q.intervals.get_mut(k) {
+                        *x = *v;
+                    }
+                }
+                for (k, v) in p2.minutes.iter() {
+                    if let Some(x) = q.minutes.get_mut(k) {
+                        *x = *v;
+                    }
+                }
+                let reused = catch_unwind(AssertUnwindSafe(|| prayer_times_dt(&q, l, d, w)));
+                let twin: Option<Params> = serde_json::to_string(&q).ok().and_then(|t| serde_json::from_str(&t).ok());
+                if let (Ok(_), Ok(reused), Some(twin)) = (first, reused, twin) {
+                    if let Ok(fresh) = catch_unwind(AssertUnwindSafe(|| prayer_times_dt(&twin, l, d, w))) {
+                        if fresh != reused {
+                            let mut desc = describe(&q, l, d, w);
+                            if let Some(o) = desc.as_object_mut() {
+                                o.insert("history_probe".into(), serde_json::json!("params_object"));
+                            }
+                            st.violate("result_depends_on_call_history", &desc, serde_json::json!({"probe": "a Params object used for one call, then changed in place (public fields) and used again, against a freshly built object with the same field values", "changed_field_kind": kind, "reused_object": res_json(&reused), "fresh_object": res_json(&fresh)}));
+                        }
+                    }
+                }
+                // ... and the same object once more with the fallback policy switched off in place
+                if q.extreme_latitude_method != ExtremeLatitudeMethod::None {
+                    q.extreme_latitude_method = ExtremeLatitudeMethod::None;
+                    let reused = catch_unwind(AssertUnwindSafe(|| prayer_times_dt(&q, l, d, w)));
+                    let twin: Option<Params> = serde_json::to_string(&q).ok().and_then(|t| serde_json::from_str(&t).ok());
+                    if let (Ok(reused), Some(twin)) = (reused, twin) {
+                        if let Ok(fresh) = catch_unwind(AssertUnwindSafe(|| prayer_times_dt(&twin, l, d, w))) {
+                            if fresh != reused {
+                                let mut desc = describe(&q, l, d, w);
+                                if let Some(o) = desc.as_object_mut() {
+                                    o.insert("history_probe".into(), serde_json::json!("params_object"));
+                                }
+                                st.violate("result_depends_on_call_history", &desc, serde_json::json!({"probe": "a Params object used under a fallback policy, then its policy field set to None in place and used again, against a freshly built object with the same field values", "reused_object": res_json(&reused), "fresh_object": res_json(&fresh)}));
+                            }
+                        }
+                    }
+                }
+            }
             if let Some(pm) = shadow_panic {
                 if st.prop == "C07" {
                     st.violate("panic", &describe(p, l, d, w), serde_json::json!({"panic": pm, "probe": "panic in a call made right after / before a near-duplicate call (history-dependent)", "nudged_field_kind": kind}));
@@ -431,6 +489,41 @@ pub fn bisect(mut a: f64, mut b: f64, mut pred: impl FnMut(f64) -> bool) -> (f64
     (a, b)
 }
 
+/// Clock-boundary seeking, shared: move the site eastwards (every solar time falls 240 s per degree) and bisect the
+/// longitude down to ADJACENT f64 values across the point where the reported clock value of `pr` drops below the
+/// whole-`unit`-seconds boundary at or below its current value. Returns (last longitude at/above the boundary, first
+/// longitude below it). The raw hour value is then within about one unit in the last place of the conversion's
+/// boundary: paired executions that must agree exactly are judged there and at a few neighbouring floats.
+pub fn seek_clock_boundary(st: &mut Stats, p: &Params, site: Site, date: NaiveDate, w: Option<Weather>, pr: Prayer, unit: f64) -> Option<(f64, f64)> {
+    let at = |st: &mut Stats, lon: f64| -> Option<f64> {
+        let mut s2 = site;
+        s2.lon = X(lon);
+        call(st, p, s2.loc(), date, w).ok().and_then(|r| r[&pr].ok()).map(|t| secs(&t))
+    };
+    let d0 = at(st, site.lon.0)?;
+    let t = (d0 / unit).floor() * unit;
+    let lon1 = site.lon.0 + (d0 - t) / 240.0 + unit.min(60.0) / 240.0 + 0.02;
+    if lon1 > 180.0 || t <= 0.0 {
+        return None;
+    }
+    match at(st, lon1) {
+        Some(d1) if d1 < t => {}
+        _ => return None,
+    }
+    let (a, b) = bisect(site.lon.0, lon1, |lon| at(st, lon).map(|d| d >= t).unwrap_or(true));
+    Some((a, b))
+}
+/// the k-th f64 after (k > 0) or before (k < 0) x
+pub fn nudge_ulps(x: f64, k: i64) -> f64 {
+    if x == 0.0 || !x.is_finite() {
+        return x;
+    }
+    let bits = x.to_bits() as i64;
+    // for negative x a larger bit pattern is a more negative number
+    let nb = if x > 0.0 { bits + k } else { bits - k };
+    f64::from_bits(nb as u64)
+}
+
 pub fn guarded<T>(f: impl FnOnce() -> T) -> Result<T, String> {
     match catch_unwind(AssertUnwindSafe(f)) {
         Ok(r) => Ok(r),
@@ -472,7 +565,7 @@ pub fn run(ctx: &Ctx, st: &mut Stats) -> bool {
 }
 
 pub fn replay(ctx: &Ctx, id: &str, case: &Value, st: &mut Stats) -> bool {
-    if case.get("history_probe").is_some() || case.get("concurrent_callers").is_some() || case.get("miri_seed").is_some() || case.get("coldstart_seed").is_some() || case.get("hammer_seed").is_some() {
+    if case.get("history_probe").is_some() || case.get("concurrent_callers").is_some() || case.get("miri_seed").is_some() || case.get("coldstart_seed").is_some() || case.get("hammer_seed").is_some() || case.get("method_defaults").is_some() {
         eprintln!("this record comes from a history / concurrency probe: a single-input replay cannot reproduce it; re-run `./check {id}` (same VERIF_SEED) instead");
         return false;
     }
